@@ -1,5 +1,6 @@
 import ChfVerif.Model.CdrFile
 import ChfVerif.Spec.TS32297
+import ChfVerif.Gen.CdrFileFacts
 /- token (de)serialisation of CDR file structures for the line protocol -/
 namespace Chf.Driver
 open Chf Chf.CdrFile
@@ -107,6 +108,29 @@ def cdrfileOp : Tok → String
       let len := (encodeHeader hdr).length + n * ((encodeCdrHeader ch).length + l)
       if n ≤ 4096 ∧ l ≤ 65535 then s!"ok len={len} flen={len} n={n} eq=1" else "bad-op"
     | _, _ => "bad-op"
+  | "over" :: _perm :: n :: fill :: t =>   -- the destination already holds n octets (or does not exist: "-")
+    match pFile t, fill.toNat? with
+    | some (f, []), some fill =>
+      let old : Option (Option Bytes) := if n == "-" then some none else (n.toNat?).map fun k => some (patternBytes k fill)
+      (match old with
+       | none => "bad-op"
+       | some old =>
+         let b := encodingOnto Chf.Gen.encodingWrite old f
+         match decodeFile b with
+         | some g => "ok " ++ hexOfBytes b ++ " " ++ unwords (sFile g)
+         | none => "panic " ++ hexOfBytes b)
+    | _, _ => "bad-op"
+  | "rewrite" :: t =>                      -- file A, then file B written to the same path
+    match pFile t with
+    | some (a, "|" :: t2) =>
+      (match pFile t2 with
+       | some (f, []) =>
+         let b := encodingOnto Chf.Gen.encodingWrite (some (encodingOnto Chf.Gen.encodingWrite none a)) f
+         (match decodeFile b with
+          | some g => "ok " ++ hexOfBytes b ++ " " ++ unwords (sFile g)
+          | none => "panic " ++ hexOfBytes b)
+       | _ => "bad-op")
+    | _ => "bad-op"
   | "rt" :: t =>
     match pFile t with
     | some (f, []) =>
